@@ -899,6 +899,15 @@ Theorem optional_repeated_refuted :
     /\ compile optional_array_sample = Ok cs /\ client_accepts cs = false.
 Proof. eexists. repeat split; vm_compute; reflexivity. Qed.
 
+(* two statuses that differ only in case: linked by the compiler, rejected by protodesc.NewFiles *)
+Definition status_case_sample : entity :=
+  mkE (bs "foo.v1") (bs "Foo") [] [mkK (mkU (bs "fooId") (KKey true None None) false false) false]
+      [] [bs "Active"; bs "ACTIVE"] [] [] [] None [].
+Theorem status_case_refuted :
+  exists cs, in_quantifier status_case_sample = true /\ reserved_free status_case_sample = true
+    /\ compile status_case_sample = Ok cs /\ client_accepts cs = false.
+Proof. eexists. repeat split; vm_compute; reflexivity. Qed.
+
 Theorem full_refuted : ~ C17_full_statement_def.
 Proof.
   intros H. destruct (H (mk_min "page")) as [cs [Hc _]]; [vm_compute; reflexivity|].
